@@ -58,6 +58,17 @@ var Catalogue = []Item{
 	{"string.range", "func sr%d(s string) uint64 {\n\tvar n uint64 = 0\n\tfor range s {\n\t\tn = n + 1\n\t}\n\treturn n\n}\n", "return sr%d(\"abcd\")", "uint64"},
 	{"string.compare-lt", "func sc%d(a string, b string) bool {\n\treturn a < b\n}\n", "return sc%d(\"abc\", \"abd\")", "bool"},
 	{"range.int", "func ri%d() uint64 {\n\tvar n uint64 = 0\n\tfor i := range 4 {\n\t\tn = n + uint64(i)\n\t}\n\treturn n\n}\n", "return ri%d()", "uint64"},
+	{"range.int-bound-shrinks", "func rib%d(k uint64) uint64 {\n\tvar n uint64 = k\n\tvar t uint64 = 0\n\tfor i := range n {\n\t\tn = n - 1\n\t\tt = t + i + 1\n\t}\n\treturn t*100 + n\n}\n", "return rib%d(6)", "uint64"},
+	{"range.int-len-grows", "func ril%d() uint64 {\n\tq := make([]uint64, 0)\n\tq = append(q, 1)\n\tq = append(q, 2)\n\tfor i := range uint64(len(q)) {\n\t\tif uint64(len(q)) < 6 {\n\t\t\tq = append(q, i+10)\n\t\t}\n\t}\n\treturn uint64(len(q))\n}\n", "return ril%d()", "uint64"},
+	{"range.int-assign-index", "func rix%d() uint64 {\n\tvar t uint64 = 0\n\tfor i := range uint64(5) {\n\t\tif i == 1 {\n\t\t\ti = 3\n\t\t}\n\t\tt = t*10 + i\n\t}\n\treturn t\n}\n", "return rix%d()", "uint64"},
+	{"assign.rotate3", "func rt%d(a uint64, b uint64, c uint64) uint64 {\n\tvar x uint64 = a\n\tvar y uint64 = b\n\tvar z uint64 = c\n\tx, y, z = y, z, x\n\treturn x*100 + y*10 + z\n}\n", "return rt%d(1, 2, 3)", "uint64"},
+	{"assign.swap-deref", "func sd%d(p *uint64, q *uint64) {\n\t*p, *q = *q, *p\n}\n\nfunc se%d() uint64 {\n\tp := new(uint64)\n\tq := new(uint64)\n\t*p = 4\n\t*q = 9\n\tsd%d(p, q)\n\treturn *p*10 + *q\n}\n", "return se%d()", "uint64"},
+	{"assign.swap-params", "func sq%d(a uint64, b uint64) uint64 {\n\ta, b = b, a\n\treturn a*10 + b\n}\n", "return sq%d(1, 2)", "uint64"},
+	{"struct.embedded-init", "type ei%da struct {\n\tx uint64\n}\n\ntype ei%db struct {\n\tei%da\n\ty uint64\n}\n\nfunc ei%d() uint64 {\n\tv := ei%db{ei%da: ei%da{x: 5}, y: 2}\n\treturn v.x*10 + v.y\n}\n", "return ei%d()", "uint64"},
+	{"struct.embedded-explicit", "type ee%da struct {\n\tx uint64\n}\n\ntype ee%db struct {\n\tee%da\n\ty uint64\n}\n\nfunc ee%d() uint64 {\n\tv := ee%db{ee%da: ee%da{x: 5}, y: 2}\n\treturn v.ee%da.x*10 + v.y\n}\n", "return ee%d()", "uint64"},
+	{"struct.embedded-method", "type em%dc struct {\n\tx uint64\n}\n\nfunc (a em%dc) get() uint64 {\n\treturn a.x + 1\n}\n\ntype em%dd struct {\n\tem%dc\n\ty uint64\n}\n\nfunc eg%d() uint64 {\n\tv := em%dd{em%dc: em%dc{x: 5}, y: 2}\n\treturn v.get()*10 + v.y\n}\n", "return eg%d()", "uint64"},
+	{"struct.embedded-pointer", "type ep%da struct {\n\tx uint64\n}\n\ntype ep%db struct {\n\t*ep%da\n\ty uint64\n}\n\nfunc ep%d() uint64 {\n\tv := ep%db{ep%da: &ep%da{x: 5}, y: 2}\n\tv.x = v.x + 1\n\treturn v.x*10 + v.y\n}\n", "return ep%d()", "uint64"},
+	{"interface.embedded", "type ie%da interface {\n\tA() uint64\n}\n\ntype ie%db interface {\n\tie%da\n\tB() uint64\n}\n\ntype ie%ds struct {\n\tk uint64\n}\n\nfunc (s ie%ds) A() uint64 {\n\treturn s.k\n}\n\nfunc (s ie%ds) B() uint64 {\n\treturn s.k + 1\n}\n\nfunc ie%df(v ie%db) uint64 {\n\treturn v.A()*10 + v.B()\n}\n\nfunc ie%d() uint64 {\n\treturn ie%df(ie%ds{k: 3})\n}\n", "return ie%d()", "uint64"},
 	{"method.value", "type mv%ds struct {\n\tk uint64\n}\n\nfunc (s *mv%ds) get(x uint64) uint64 {\n\treturn s.k + x\n}\n\nfunc mv%d() uint64 {\n\tp := &mv%ds{k: 5}\n\tf := p.get\n\tp.k = 100\n\treturn f(1)\n}\n", "return mv%d()", "uint64"},
 	{"struct.anonymous", "func an%d() uint64 {\n\tv := struct {\n\t\ta uint64\n\t}{a: 4}\n\treturn v.a\n}\n", "return an%d()", "uint64"},
 	{"literal.huge", "func lh%d() uint64 {\n\treturn 18446744073709551616 / 2\n}\n", "return lh%d()", "uint64"},
@@ -199,7 +210,7 @@ var Catalogue = []Item{
 // RejectedAtPin: catalogue constructs that the pinned translator answers with a conversion error. They are the
 // boundary of the accepted subset: a translator that starts to accept one of them has enlarged the subset, and the
 // construct then falls under "accepted programs keep their meaning" (C01) as well as under C02.
-var RejectedAtPin = map[string]bool{"append.multi": true, "array": true, "assign.complex-lvalue": true, "assign.define-captured": true, "assign.define-in-loop": true, "assign.define-local": true, "assign.param": true, "assign.swap": true, "assign.tuple-fib": true, "assign.tuple-swap-elems": true, "break.nested-elseless": true, "closure.loopvar-captured-later": true, "const.iota": true, "const.untyped-global": true, "continue.nested-elseless": true, "defer": true, "defer.early-return": true, "defer.lifo": true, "defer.return-order": true, "define.multi": true, "for.init-assign-param": true, "for.init-assign-var": true, "global.var-mutated": true, "go.args": true, "goto": true, "goto.loop-tail": true, "if.init": true, "if.init-shadow": true, "if.init-then-use-outer": true, "incdec.elem": true, "incdec.field": true, "incdec.global": true, "init.func": true, "int.int32-widen": true, "int.int64-compare": true, "int.int64-div": true, "int.int64-shift": true, "int.int8-widen": true, "int.signed": true, "label.break-outer": true, "label.continue-outer": true, "literal.huge": true, "literal.huge2": true, "lookalike.len": true, "map.literal": true, "method.on-named-slice": true, "named-results": true, "named-results.explicit": true, "nil.func": true, "op.andnot": true, "op.unary-minus": true, "op.unary-plus": true, "opassign.andnot": true, "opassign.div": true, "opassign.mul": true, "opassign.rem": true, "opassign.shl": true, "opassign.shr": true, "range.assign-existing": true, "range.int": true, "results.blank-named": true, "results.named-shadowed": true, "return.else-after-early": true, "return.elseif-chain-elseless": true, "return.in-loop": true, "return.nested-elseless": true, "return.nested-elseless-loop": true, "slice.3index": true, "slice.full": true, "slice.literal-multi": true, "slice.subslice-cap": true, "string.hex-escape": true, "string.index": true, "string.quote-escape": true, "string.range": true, "struct.anonymous": true, "struct.embedded": true, "struct.unkeyed": true, "switch": true, "switch.break-in-loop": true, "switch.break-under-if": true, "switch.continue-in-loop": true, "switch.default-first": true, "switch.fallthrough": true, "switch.tag-effect-once": true, "switch.tagless": true, "type.grouped": true}
+var RejectedAtPin = map[string]bool{"range.int-bound-shrinks": true, "range.int-len-grows": true, "range.int-assign-index": true, "assign.rotate3": true, "assign.swap-deref": true, "assign.swap-params": true, "struct.embedded-init": true, "struct.embedded-explicit": true, "struct.embedded-method": true, "struct.embedded-pointer": true, "interface.embedded": true, "append.multi": true, "array": true, "assign.complex-lvalue": true, "assign.define-captured": true, "assign.define-in-loop": true, "assign.define-local": true, "assign.param": true, "assign.swap": true, "assign.tuple-fib": true, "assign.tuple-swap-elems": true, "break.nested-elseless": true, "closure.loopvar-captured-later": true, "const.iota": true, "const.untyped-global": true, "continue.nested-elseless": true, "defer": true, "defer.early-return": true, "defer.lifo": true, "defer.return-order": true, "define.multi": true, "for.init-assign-param": true, "for.init-assign-var": true, "global.var-mutated": true, "go.args": true, "goto": true, "goto.loop-tail": true, "if.init": true, "if.init-shadow": true, "if.init-then-use-outer": true, "incdec.elem": true, "incdec.field": true, "incdec.global": true, "init.func": true, "int.int32-widen": true, "int.int64-compare": true, "int.int64-div": true, "int.int64-shift": true, "int.int8-widen": true, "int.signed": true, "label.break-outer": true, "label.continue-outer": true, "literal.huge": true, "literal.huge2": true, "lookalike.len": true, "map.literal": true, "method.on-named-slice": true, "named-results": true, "named-results.explicit": true, "nil.func": true, "op.andnot": true, "op.unary-minus": true, "op.unary-plus": true, "opassign.andnot": true, "opassign.div": true, "opassign.mul": true, "opassign.rem": true, "opassign.shl": true, "opassign.shr": true, "range.assign-existing": true, "range.int": true, "results.blank-named": true, "results.named-shadowed": true, "return.else-after-early": true, "return.elseif-chain-elseless": true, "return.in-loop": true, "return.nested-elseless": true, "return.nested-elseless-loop": true, "slice.3index": true, "slice.full": true, "slice.literal-multi": true, "slice.subslice-cap": true, "string.hex-escape": true, "string.index": true, "string.quote-escape": true, "string.range": true, "struct.anonymous": true, "struct.embedded": true, "struct.unkeyed": true, "switch": true, "switch.break-in-loop": true, "switch.break-under-if": true, "switch.continue-in-loop": true, "switch.default-first": true, "switch.fallthrough": true, "switch.tag-effect-once": true, "switch.tagless": true, "type.grouped": true}
 
 // Imports lists the standard-library imports an item needs (found by inspection of its text).
 func (it Item) Imports() []string {
